@@ -6,14 +6,19 @@ order = sys.argv[1]
 import jax  # noqa: E402
 import numpy as np  # noqa: E402
 
-if order == "x64_first":
+if order in ("x64_first", "single_precision_solver_built_after", "single_precision_solver_built_before"):
     jax.config.update("jax_enable_x64", True)
 from mdpax.problems.forest import Forest  # noqa: E402
 from mdpax.solvers.value_iteration import ValueIteration  # noqa: E402
 from mdpax.solvers.relative_value_iteration import RelativeValueIteration  # noqa: E402
 
 p = Forest(S=4, p=0.1)
+if order == "single_precision_solver_built_before":
+    other = ValueIteration(Forest(S=3, p=0.2), gamma=0.5, epsilon=1e-2, verbose=0, jax_double_precision=False)
 s = ValueIteration(p, gamma=0.9, epsilon=1e-3, verbose=0)          # jax_double_precision defaults to True
+if order == "single_precision_solver_built_after":
+    # another solver, for which single precision is requested, is created in the same process before this one solves
+    other = ValueIteration(Forest(S=3, p=0.2), gamma=0.5, epsilon=1e-2, verbose=0, jax_double_precision=False)
 r = s.solve(60)
 import jax.numpy as jnp  # noqa: E402
 print("gamma_dtype=%s values_dtype=%s x64=%s values=%s" % (jnp.asarray(s.gamma).dtype, r.values.dtype, jax.config.jax_enable_x64,
